@@ -140,7 +140,7 @@ def io_faults(ctx, r, prefer_big=False, prop="C10", torn=False, post_oracle=None
 
 def run(ctx):
     from . import c11
-    c11.input_tie(ctx, ctx.seed + 1000, 1000 if ctx.quick else 20000)
+    c11.input_tie(ctx, ctx.seed + 1000, 300 if ctx.quick else 20000)
     import os
     os.environ["GOGC"] = "1"      # stress the Go runtime: collections (and finalizers) inside every lock section
     framework.check_facts(ctx, ctx.facts, ["sections"])
